@@ -42,7 +42,7 @@ BASE = ["D upd", "F upd/a.mrt", "D upd/sub", "F upd/sub/b.mrt", "D out", "F out/
 EXTRA = [
     ["D upd2", "F upd2/x"], ["D up", "F up/x"], ["D upd-evil", "F upd-evil/x"],
     ["D upd/sub/deep", "F upd/sub/deep/c.mrt"], ["F upd/..."], ["F upd/..a"], ["D upd/.h", "F upd/.h/f"],
-    ["F upd/sp%20ace"], ["F upd/pl+us"], ["F upd/pc%25t"], ["D upd/a.mrt.d"], ["F upd/sub/a.mrt"],
+    ["F upd/sp%20ace"], ["F upd/pl+us"], ["F upd/pc%25t"], ["F upd/%2561.mrt"], ["D upd/a.mrt.d"], ["F upd/sub/a.mrt"],
 ]
 LINKS = [
     "L upd/in sub/../a.mrt", "L upd/inabs @/upd/sub", "L upd/esc ../out", "L upd/escabs @/out", "L upd/escf ../out/secret",
@@ -53,7 +53,7 @@ LINKS = [
     "L upd/l%20sp sub", "L upd/etc /etc",
 ]
 GOOD = ["a.mrt", "sub/b.mrt", "in", "inabs/b.mrt", "viaout", "sub/up/upd/a.mrt", "dot/a.mrt", "dotdot/upd/sub/b.mrt", "tsl/b.mrt",
-        "sub/deep/c.mrt", "sub/deep/../b.mrt", "...", "..a", ".h/f", "sp ace", "pl+us", "pc%t", "sub/a.mrt", "sub", "", ".",
+        "sub/deep/c.mrt", "sub/deep/../b.mrt", "...", "..a", ".h/f", "sp ace", "pl+us", "pc%t", "%61.mrt", "sub/a.mrt", "sub", "", ".",
         "sub/home/upd/a.mrt", "l sp/b.mrt", "esc/back/a.mrt", "c3", "far/@/upd/a.mrt", "sub/..", "sub/up/out/back/sub/b.mrt"]
 BAD = ["../out/secret", "esc/secret", "escabs/secret", "escf", "sub/up/out/secret", "dotdot/out/secret", "rootl/etc/passwd", "sib/x",
        "sibabs/x", "../upd2/x", "../upd-evil/x", "../up/x", "..", "../", "sub/../..", "dang", "dang2", "loop1", "self", "self/x", "ftsl",
@@ -159,11 +159,57 @@ def gen_case(rng, k, root):
     return ";".join(ops)
 
 
+RNAMES = ["a", "b", "c", "d"]
+
+
+def rand_path(rng, lo, hi, extra=()):
+    return "/".join(rng.weighted([(rng.choice(RNAMES), 60), ("..", 22), (".", 8), ("", 4)] + list(extra)) for _ in range(rng.range(lo, hi)))
+
+
+def gen_random_case(rng, k, root):
+    """a random small tree over a 4-letter alphabet: nothing about its shape is known to the generator"""
+    ops = ["R %s/%s" % (root, k)]
+    dirs, every = [""], []
+    for _ in range(rng.range(4, 14)):
+        parent = rng.choice(dirs)
+        name = rng.choice(RNAMES) if rng.chance(92) else rng.choice([".x", "a%20b", "..."])
+        path = (parent + "/" + name) if parent else name
+        kind = rng.weighted([("D", 40), ("F", 28), ("L", 32)])
+        if path in every and rng.chance(90):
+            continue            # mostly avoid ops the engines would ignore (an existing name)
+        if kind == "D":
+            ops.append("D " + path)
+            dirs.append(path)
+        elif kind == "F":
+            ops.append("F " + path)
+        else:
+            t = rand_path(rng, 1, 4)
+            if t in ("", "/"):
+                t = "."
+            pre = rng.weighted([("", 62), ("@/", 28), ("/", 10)])
+            ops.append("L %s %s%s%s" % (path, pre, t, "/" if rng.chance(12) else ""))
+        every.append(path)
+    ops.append("U " + rng.weighted([("@/" + rng.choice(dirs[1:] or every), 50), ("@/" + rng.choice(every), 25),
+                                    ("@/" + rng.choice(dirs[1:] or every) + "/" + rand_path(rng, 1, 2), 10),
+                                    ("@", 5), (rng.choice(every), 7), ("-", 3)]))
+    for _ in range(rng.range(5, 12)):
+        v = rand_path(rng, 1, 5)
+        if rng.chance(10):
+            v = "@/" + v
+        if rng.chance(8):
+            v += "/"
+        ops.append("Q GET /mrt/u/queue file=%s %s" % (enc_value(rng, v, rng.choice([0, 0, 0, 30])), rng.weighted([("o", 90), ("e", 5), ("s", 5)])))
+    return ";".join(ops)
+
+
 def gen(rng, tier):
     root = root_dir()
     n = 1000 if tier == "quick" else 20000
     for i in range(n):
-        yield gen_case(rng, "g%d" % i, root)
+        if i % 3 == 2:
+            yield gen_random_case(rng, "g%d" % i, root)
+        else:
+            yield gen_case(rng, "g%d" % i, root)
 
 
 WHY = {0: "accept", 1: "reject:no-update_path", 2: "reject:update_path-unresolvable", 3: "reject:param-missing-or-family",
@@ -181,7 +227,7 @@ def nontrivial(case, out):
     for q, (st, enq, why) in zip(qs, rs):
         if why.endswith(":9>"):
             return True
-        if enq != "-" and (".." in q or "%" in q or re.search(r"=(in|inabs|viaout|dot|tsl|c\d+|esc|far|sub/(up|home))", q)):
+        if enq != "-" and (".." in q or "%" in q or " L " in case.replace(";", " ") and re.search(r"=(in|inabs|viaout|dot|tsl|c\d+|esc|far|sub/(up|home))", q)):
             return True
     return False
 
@@ -201,6 +247,7 @@ def classify(case, out):
             ks.add("enqueued-outside-scratch-root")
     if re.search(r"L upd/c4\d", case):
         ks.add("tree:chain>40")
+    ks.add("tree:random" if ";D upd;" not in case else "tree:template")
     return sorted(ks)
 
 
@@ -225,6 +272,9 @@ def corpus():
         # the 40-link budget of realpath: k39 needs 40 links (ok), k40 needs 41 (ELOOP)
         "R %s/c4;%s;%s;U @/upd;%s;%s;%s;%s" % (root, ";".join(BASE), chain, q("k38"), q("k39"), q("k40"), q("k42")),
         # dispatch and parameter forms; what the unit answers
+        # a small random-shaped tree: nested links, a link climbing out and back, update_path through a link
+        "R %s/c6;D a;D a/b;F a/b/c;L a/d b/../b;L b @/a/d/;L a/b/a ../..;L c b/a/../../a;U @/b;Q GET /mrt/u/queue file=c o;"
+        "Q GET /mrt/u/queue file=a/a/d/c o;Q GET /mrt/u/queue file=a/c o;Q GET /mrt/u/queue file=../../c/b/c o;Q GET /mrt/u/queue file=a/b o" % root,
         "R %s/c5;%s;U @/upd;Q POST /mrt/u/queue file=a.mrt o;Q GET /mrt/u/status file=a.mrt o;Q GET /mrt/u/%%71ueue file=a.mrt o;"
         "Q GET /mrt/u/queue - o;Q GET /mrt/u/queue file[x]=a.mrt o;Q GET /mrt/u/queue file]=q&file=a.mrt o;Q GET /mrt/u/queue x=1&&file=a.mrt&file=../out/secret o;"
         "%s;%s;%s" % (root, t, q("a.mrt", "e"), q("a.mrt", "d"), q("a.mrt", "s")),
